@@ -40,8 +40,17 @@ func embedIDL(g Generator, i thriftPackageImporter, m *compile.Module) error {
 	}
 
 	hash := sha1.Sum(m.Raw)
+	// Import the included modules in a fixed order: the alias an import gets
+	// depends on the imports made before it.
+	names := make([]string, 0, len(m.Includes))
+	for name := range m.Includes {
+		names = append(names, name)
+	}
+	sort.Strings(names)
+
 	var includes []string
-	for _, v := range m.Includes {
+	for _, name := range names {
+		v := m.Includes[name]
 		importPath, err := i.Package(v.Module.ThriftPath)
 		if err != nil {
 			return wrapGenerateError("idl embedding", err)
